@@ -69,6 +69,7 @@ deriving Repr
 structure Obj where
   id      : Nat
   name    : Bytes
+  host    : Bytes := []               -- the host label the service is bound to
   active  : Option Nat := none
   rollout : Option Nat := none
   gate    : Nat
@@ -176,6 +177,14 @@ def scriptOf (w : World) (name : Bytes) : Script :=
 def installedObj (w : World) (svc : Bytes) : Option Obj :=
   (w.table.find? (·.1 = svc)).bind fun p => getO w p.2
 
+/-- route lookup: the installed service object bound to this host label -/
+def routeObj (w : World) (host : Bytes) : Option Obj :=
+  (w.table.filterMap fun p => getO w p.2).find? (·.host = host)
+
+/-- `CheckAvailability`: another installed service owns this host -/
+def hostTaken (w : World) (name host : Bytes) : Bool :=
+  (w.table.filterMap fun p => getO w p.2).any fun o => o.host = host && o.name ≠ name
+
 /-! ### load balancer -/
 
 /-- `updateHealthyTargets` -/
@@ -277,7 +286,7 @@ def reqStep (w : World) (r : Req) : Option World :=
   if r.parkedAt.isSome then none else
   match r.phase with
   | .start =>
-    some (reqAt w r (.routed ((installedObj w r.svc).map (·.id))) "req.routed")
+    some (reqAt w r (.routed ((routeObj w r.svc).map (·.id))) "req.routed")
   | .routed none => some (finishReq w r 404 "-")
   | .routed (some oid) =>
     match (getO w oid).bind fun o => getG w o.gate with
@@ -416,7 +425,7 @@ def hcInterval : Nat := 1000000000
 def hcTimeoutNs : Nat := 300000000
 
 /-- start a deploy / rollout-deploy thread: `findOrCreateService`, `NewLoadBalancer` -/
-def startDeploy (w : World) (cid : Nat) (svc : Bytes) (slot : Bool) (targets : List Bytes) (dt drt : Nat) : World :=
+def startDeploy (w : World) (cid : Nat) (svc host : Bytes) (slot : Bool) (targets : List Bytes) (dt drt : Nat) : World :=
   let mk (w : World) (oid : Nat) : World :=
     let lbId := w.next
     let w1 := { w with next := w.next + 1 }
@@ -433,11 +442,11 @@ def startDeploy (w : World) (cid : Nat) (svc : Bytes) (slot : Bool) (targets : L
     match installedObj w svc with
     | some o =>
       -- CopyWithOptions: a new object sharing load balancers and gate, copying the split
-      let o' : Obj := { o with id := w.next }
+      let o' : Obj := { o with id := w.next, host := host }
       mk { w with objs := w.objs ++ [o'], next := w.next + 1 } o'.id
     | none =>
       let g : Gate := { id := w.next }
-      let o' : Obj := { id := w.next + 1, name := svc, gate := g.id }
+      let o' : Obj := { id := w.next + 1, name := svc, host := host, gate := g.id }
       mk { w with gates := w.gates ++ [g], objs := w.objs ++ [o'], next := w.next + 2 } o'.id
 
 /-- `ServiceMap.Set`: one update of the table entry of that name -/
@@ -461,10 +470,14 @@ def cmdStep (w : World) (c : Cmd) : Option World :=
       let o' := if slot then { o with rollout := some lb } else { o with active := some lb }
       some (park (setO w o') c "deploy.lbset" (.lbset oid lb replaced))
     | _, _ => none
-  | .lbset oid _ replaced =>
+  | .lbset oid lb replaced =>
     match getO w oid with
     | none => none
     | some o =>
+      if hostTaken w o.name o.host then
+        -- installService refuses; the new load balancer is disposed (F3 repair)
+        some (finishCmd (disposeLb w lb) c "hostInUse")
+      else
       let w1 := { w with table := installTable w.table o.name oid }
       some (park w1 c "deploy.installed" (.installed replaced))
   | .installed replaced =>
@@ -550,7 +563,7 @@ inductive Op
   | hold (name : Bytes) (v : Bool)
   | arm (label : String)
   | disarm (label : String)
-  | deploy (c : Nat) (svc : Bytes) (rollout : Bool) (targets : List Bytes) (dt drt : Nat)
+  | deploy (c : Nat) (svc host : Bytes) (rollout : Bool) (targets : List Bytes) (dt drt : Nat)
   | pause (c : Nat) (svc : Bytes) (drt failAfter : Nat)
   | stop (c : Nat) (svc : Bytes) (drt : Nat) (msg : Bytes)
   | resume (c : Nat) (svc : Bytes)
@@ -632,7 +645,7 @@ def applyOp (w : World) : Op → World
   | .hold n v => settle fuel (setScript w n fun s => { s with hold := v })
   | .arm l => settle fuel { w with armed := if w.armed.contains l then w.armed else w.armed ++ [l] }
   | .disarm l => settle fuel { w with armed := w.armed.filter (· ≠ l) }
-  | .deploy c svc rollout ts dt drt => settle fuel (startDeploy w c svc rollout ts dt drt)
+  | .deploy c svc host rollout ts dt drt => settle fuel (startDeploy w c svc host rollout ts dt drt)
   | .pause c svc drt fa =>
     settle fuel (withInstalled w c svc fun o =>
       match getG w o.gate with
